@@ -318,9 +318,8 @@ Variable maximum : nat.
 
 (* ELIDED TEXTS ARE NOT PARSED.  Whenever the formatter elides (the token view holds "..."), the
    scanner turns the text into the tokens before the first dot (with their lines and positions),
-   the Error token "." and EOF; the parser never consumes an Error token, so the text is rejected:
-   with a located diagnostic for a token of that stream, or — only if the Set collator panics on
-   a Set that was complete before the dots — with that panic. *)
+   the Error token "." and EOF; the parser never consumes an Error token, so the text is rejected
+   with a located diagnostic for a token of that stream. *)
 Theorem elided_rejected v text :
   format0 ftext printable maximum v = Ret text ->
   (exists ts, tokens_of ftext printable maximum v = Some ts /\ has_elision ts = true) ->
@@ -328,12 +327,7 @@ Theorem elided_rejected v text :
   (exists pre line pos,
      lex text = pre ++ [mkTok Lexer.TError [46] line pos; mkTok Lexer.TEOF [46] line pos] /\
      Forall (fun t => ttype_of t <> Lexer.TError) pre) /\
-  match parse_source fparse crank text with
-  | PValue _ => False
-  | PSyntax t => In t (lex text)
-  | PRuntime RCollator => exists a b, crank a b = None
-  | _ => False
-  end.
+  (exists t, parse_source fparse crank text = PSyntax t /\ In t (lex text)).
 Proof.
   intros Hf (ts & Ets & He) Fl. rewrite format0_tokens, Ets in Hf. cbn [out_of_tokens] in Hf. inversion Hf; subst text. clear Hf.
   pose proof (tokens_of_scan_upto fparse ftext printable maximum v ts Ets Fl) as Su.
@@ -354,12 +348,7 @@ Corollary elided_not_parsed v text :
   (exists pre line pos,
      lex text = pre ++ [mkTok Lexer.TError [46] line pos; mkTok Lexer.TEOF [46] line pos] /\
      Forall (fun t => ttype_of t <> Lexer.TError) pre) /\
-  match parse_source fparse crank text with
-  | PValue _ => False
-  | PSyntax t => In t (lex text)
-  | PRuntime RCollator => exists a b, crank a b = None
-  | _ => False
-  end.
+  (exists t, parse_source fparse crank text = PSyntax t /\ In t (lex text)).
 Proof.
   intros Hn Hf Fl. apply (elided_rejected v text Hf); [|exact Fl].
   pose proof Hf as Hf'. rewrite format0_tokens in Hf'.
